@@ -4,6 +4,10 @@
   Theorems (ordered field): the cepstrum ↔ filter-coefficient maps are mutually inverse for every α
   (so the filter is driven by exactly the model cepstrum); with all-zero coefficients the MLSA cascade
   is the identity in every state; the response scales with `exp(c₀)` at the excitation input.
+  The transfer function as an identity of the code's arithmetic (frozen coefficients, from rest): the filter is two
+  Padé stages in cascade, each stage is exactly `P(F)/P(−F)` of its basic filter (`P` the degree-5 polynomial whose
+  coefficients the code carries, `P(w)/P(−w) ≈ exp w`), and gain term plus the two basic filters add up to the warped
+  cepstrum polynomial `Σ_m c_m z̃^{-m}` — so `H = exp(b₀)·R(F₁)·R(F₂)` with `b₀ + F₁ + F₂ = Σ c_m z̃^{-m}` for every α.
   Not proved here: the analytic clause — |ln|H(e^{jω})| − Σ c_m cos(m ω̃)| ≤ 0.01 neper — is a bound on
   the Padé(5) approximation error of a concrete rational function; it is decided on every run by the
   DFT of the implementation's pulse response (and the bit-identical model).
@@ -11,6 +15,7 @@
 import Jb.Proofs.Cepstrum
 import Jb.Proofs.MlsaLinear
 import Jb.Proofs.Lti
+import Jb.Proofs.MlsaExponent
 
 set_option linter.unusedSectionVars false
 
@@ -67,5 +72,39 @@ theorem response_additive (alpha : K) (c : List K) (nmcp : Nat) (xs ys : List K)
     mlsaRun alpha c (MlsaSt.init nmcp) (List.zipWith (· + ·) xs ys) =
       List.zipWith (· + ·) (mlsaRun alpha c (MlsaSt.init nmcp) xs) (mlsaRun alpha c (MlsaSt.init nmcp) ys) :=
   mlsaRun_add alpha c nmcp xs ys h
+
+/-! ### the transfer function, algebraically (every `α`, every order, every input signal) -/
+
+/-- the MLSA filter is the second Padé stage run on the output of the first -/
+theorem filter_is_two_stages (alpha : K) (c : List K) (nmcp : Nat) (xs : List K) :
+    mlsaRun alpha c (MlsaSt.init nmcp) xs =
+      df2Run alpha c (MlsaSt.init nmcp) (df1Run alpha c (MlsaSt.init nmcp) xs) :=
+  mlsaRun_factor alpha c nmcp xs
+
+/-- **stage 1 is `P(F₁)/P(−F₁)`**, `F₁ = c₁·Φ₁`: there is an inner signal `w` (the one the code stores) with
+    `P(−F₁) w = x` and `P(F₁) w = y`. -/
+theorem stage1_is_pade (alpha : K) (c : List K) (nmcp : Nat) (xs : List K) (n : Nat) (hn : n < xs.length) :
+    padeApply (-1) (basic1 alpha c) (df1Inner alpha c (MlsaSt.init nmcp) xs) n = xs.getD n 0 ∧
+    padeApply 1 (basic1 alpha c) (df1Inner alpha c (MlsaSt.init nmcp) xs) n =
+      (df1Run alpha c (MlsaSt.init nmcp) xs).getD n 0 :=
+  df1_pade alpha c nmcp xs n hn
+
+/-- **stage 2 is `P(F₂)/P(−F₂)`**, `F₂ = Σ_{k≥2} c_k Φ_k` (the code's warped FIR on the delayed signal). -/
+theorem stage2_is_pade (alpha : K) (c : List K) (nmcp : Nat) (xs : List K) (n : Nat) (hn : n < xs.length) :
+    padeApply (-1) (basic2 alpha c nmcp) (df2Inner alpha c (MlsaSt.init nmcp) xs) n = xs.getD n 0 ∧
+    padeApply 1 (basic2 alpha c nmcp) (df2Inner alpha c (MlsaSt.init nmcp) xs) n =
+      (df2Run alpha c (MlsaSt.init nmcp) xs).getD n 0 :=
+  df2_pade alpha c nmcp xs n hn
+
+/-- **the exponent is the model spectrum**: with `b = mc2b α c` the gain term and the two basic filters add up to
+    `Σ_m c_m z̃^{-m}`, `z̃⁻¹ = (z⁻¹ − α)/(1 − α z⁻¹)` — on the unit circle `Σ_m c_m cos(m ω̃)` is its real part. -/
+theorem exponent_is_model_spectrum (alpha : K) (c us : List K) (hc : 2 ≤ c.length) (n : Nat) (hn : n < us.length) :
+    (mc2b alpha c).getD 0 0 * us.getD n 0 + (basic1 alpha (mc2b alpha c) us).getD n 0 +
+        (basic2 alpha (mc2b alpha c) c.length us).getD n 0 =
+      (Finset.range c.length).sum fun m => c.getD m 0 * (allpassPow alpha m us).getD n 0 :=
+  mlsa_exponent alpha c us hc n hn
+
+/-- non-vacuity: a concrete cepstrum, `α = 1/2`, a three-sample signal -/
+example : (2 : Nat) ≤ ([1, 2, 4] : List ℚ).length ∧ (1 : Nat) < ([3, 0, 5] : List ℚ).length := by decide
 
 end Jb.C06
